@@ -455,7 +455,7 @@ func mustJSON(v any) string {
 
 // dumpReal reads the chain height, the recorded L1 head and the two index buckets straight from
 // the node's database, in the format of the model's `dump`.
-func dumpReal(n *rpcNode) (string, error) {
+func dumpReal(n *rpcNode, upto int) (string, error) {
 	hs := "-"
 	if ht, err := n.bc.Height(); err == nil {
 		hs = fmt.Sprintf("%x", ht)
@@ -515,7 +515,39 @@ func dumpReal(n *rpcNode) (string, error) {
 	}
 	sort.Strings(nbh)
 	sort.Strings(txl)
-	return "h=" + hs + " l1=" + l1 + " nbh=" + joinOr(nbh) + " txl=" + joinOr(txl), nil
+	// the number-keyed records of a block, probed one by one up to two numbers above the greatest
+	// height the chain ever had (a record left behind by a revert sits right above the head)
+	var hdr, body, com, su []string
+	probe := func(out *[]string, k int, err error, what string) error {
+		if err == nil {
+			*out = append(*out, fmt.Sprintf("%x", k))
+			return nil
+		}
+		if errors.Is(err, db.ErrKeyNotFound) {
+			return nil
+		}
+		return fmt.Errorf("%s of block %d: %w", what, k, err)
+	}
+	for k := 0; k < upto+2; k++ {
+		_, err := core.GetBlockHeaderByNumber(n.kv, uint64(k))
+		if err := probe(&hdr, k, err, "header"); err != nil {
+			return "", err
+		}
+		_, err = core.BlockTransactionsBucket.Get(n.kv, uint64(k))
+		if err := probe(&body, k, err, "transactions"); err != nil {
+			return "", err
+		}
+		_, err = core.GetBlockCommitmentByBlockNum(n.kv, uint64(k))
+		if err := probe(&com, k, err, "commitments"); err != nil {
+			return "", err
+		}
+		_, err = core.GetStateUpdateByBlockNum(n.kv, uint64(k))
+		if err := probe(&su, k, err, "state update"); err != nil {
+			return "", err
+		}
+	}
+	return "h=" + hs + " l1=" + l1 + " nbh=" + joinOr(nbh) + " txl=" + joinOr(txl) +
+		" hdr=" + joinOr(hdr) + " body=" + joinOr(body) + " com=" + joinOr(com) + " su=" + joinOr(su), nil
 }
 
 // dumpExpected: what the indexes must hold for the chain the generator manufactured.
@@ -529,16 +561,33 @@ func (w *world) dumpExpected() string {
 	} else if w.l1 != nil {
 		l1 = fmt.Sprintf("%x", *w.l1)
 	}
-	var nbh, txl []string
+	// a pruned node (prunedBelow = e > 0) keeps: every record of the blocks from e on; the headers of
+	// the ten blocks below e (the get_block_hash window); the hash-index entry of block e-1
+	e := w.prunedBelow
+	var nbh, txl, hdr, body, com, su []string
 	for n, b := range w.g.Bundles {
-		nbh = append(nbh, fmt.Sprintf("%s:%x", hx(b.Block.Hash), n))
+		if n+1 >= e {
+			nbh = append(nbh, fmt.Sprintf("%s:%x", hx(b.Block.Hash), n))
+		}
+		if n+int(core.BlockHashLag) >= e {
+			hdr = append(hdr, fmt.Sprintf("%x", n))
+		}
+		if n < e {
+			continue
+		}
 		for i, tx := range b.Block.Transactions {
 			txl = append(txl, fmt.Sprintf("%s:%x:%x", hx(tx.Hash()), n, i))
+		}
+		body = append(body, fmt.Sprintf("%x", n))
+		su = append(su, fmt.Sprintf("%x", n))
+		if !w.noCommit[n] {
+			com = append(com, fmt.Sprintf("%x", n))
 		}
 	}
 	sort.Strings(nbh)
 	sort.Strings(txl)
-	return "h=" + hs + " l1=" + l1 + " nbh=" + joinOr(nbh) + " txl=" + joinOr(txl)
+	return "h=" + hs + " l1=" + l1 + " nbh=" + joinOr(nbh) + " txl=" + joinOr(txl) +
+		" hdr=" + joinOr(hdr) + " body=" + joinOr(body) + " com=" + joinOr(com) + " su=" + joinOr(su)
 }
 
 // pendingDump is the database picture taken right after a chain operation, waiting for the model's.
@@ -558,7 +607,7 @@ func (h *harness) snapshot(s int, w *world, lines *[]string) error {
 		pd.op = strings.Fields(w.ops[len(w.ops)-1])[0]
 	}
 	for ni, n := range w.nodes {
-		d, err := dumpReal(n)
+		d, err := dumpReal(n, w.maxHeight)
 		if err != nil {
 			return fmt.Errorf("node %d: reading the database: %w", ni, err)
 		}
@@ -572,7 +621,7 @@ func (h *harness) snapshot(s int, w *world, lines *[]string) error {
 				Sig:  "store-level:" + section + ":" + what + ":after-" + pd.op,
 				What: fmt.Sprintf("after %q the %s backend's database holds %s; the chain is %s", w.ops[len(w.ops)-1], backendName[ni], d, pd.expected),
 				Replay: map[string]any{"scenario": s, "round": -1, "query": -1, "history": pd.history, "expected": pd.expected, "got": d,
-					"request": map[string]any{"backend": backendName[ni], "read": "database buckets BlockHeaderNumbersByHash, TransactionBlockNumbersAndIndicesByHash, ChainHeight, L1Height"}},
+					"request": map[string]any{"backend": backendName[ni], "read": "database buckets BlockHeaderNumbersByHash, TransactionBlockNumbersAndIndicesByHash, ChainHeight, L1Height, BlockHeadersByNumber, BlockTransactions, BlockCommitments, StateUpdatesByBlockNumber"}},
 			})
 		}
 	}
@@ -584,10 +633,10 @@ func (h *harness) snapshot(s int, w *world, lines *[]string) error {
 // dumpDiff names the first section in which two pictures differ and how.
 func dumpDiff(want, got string) (string, string) {
 	fw, fg := strings.Fields(want), strings.Fields(got)
-	if len(fw) != 4 || len(fg) != 4 {
+	names := []string{"height", "l1-head", "block-hash-index", "tx-hash-index", "headers", "transactions", "commitments", "state-updates"}
+	if len(fw) != len(names) || len(fg) != len(names) {
 		return "shape", "unreadable"
 	}
-	names := []string{"height", "l1-head", "block-hash-index", "tx-hash-index"}
 	for i := range fw {
 		if fw[i] == fg[i] {
 			continue
@@ -602,7 +651,10 @@ func dumpDiff(want, got string) (string, string) {
 				return m
 			}
 			for _, e := range strings.Split(body, ",") {
-				k := e[:strings.Index(e, ":")]
+				k := e
+				if i := strings.Index(e, ":"); i >= 0 {
+					k = e[:i]
+				}
 				m[k] = e
 			}
 			return m
